@@ -8,7 +8,7 @@ from ..lock import find_locks
 
 CLAIM = ("static analysis (lock typestate + who-may-touch + def-use on the CFG + sibling agreement): necessary "
          "conditions of C18 - every access to a factory's instance map / strong cache happens under that "
-         "factory's lock, the object returned is the one stored in the map, singletons are created at import, "
+         "factory's lock, the key is built from the call's arguments without lossy conversion, the object returned is the one stored in the map, singletons are created at import, "
          "zone __eq__ methods answer NotImplemented for foreign types and have __ne__/__hash__/__reduce__ siblings")
 TECHNIQUE = "lock typestate dataflow over CFG, who-may-touch on name-mangled attributes, reaching-definition path queries, method-family set comparison (ast only)"
 EXPLANATION = (
